@@ -574,6 +574,8 @@ fn run_typed<D: Dec>(req0: &[&str]) -> String {
             guard(|| {
                 let Some(d) = D::from_le(&b) else { return "skip".into() };
                 let s = d.to_string();
+                // formatter options must not panic either (see `format`)
+                let _ = format!("{:3}|{:>40}|{:<5}|{:^7}|{:+}|{:08}|{:.2}|{:#?}|{:*^w$}|{:w$}", d, d, d, d, d, d, d, d, d, d, w = 1usize);
                 let mut stable = true;
                 let back = guard_tok(|| match D::parse_str(&s) {
                     Ok(d2) => {
@@ -706,20 +708,18 @@ pub fn text_cap(ty: &str) -> Option<usize> {
     if ty == "big" {
         return None;
     }
-    // probed once per type (the generators ask for it per request); bounded, so that an implementation that never
-    // answers "buffer too small" cannot stall the generator
-    use std::sync::OnceLock;
-    static CAPS: OnceLock<[Option<usize>; 4]> = OnceLock::new();
-    let caps = CAPS.get_or_init(|| ["b32", "b64", "b128", "dyn"].map(probe_text_cap));
+    // The sizes of the streaming text buffers are part of what the types promise (a text up to this long is never refused
+    // for lack of space): `ArrayTextBuf::<32|64|128|128>` at the pinned commit. They are constants here, not probed from
+    // the implementation under test — a probe would follow an off-by-one in the capacity test and hide it. `harness caps`
+    // prints the probed values next to them.
     match ty {
-        "b32" => caps[0],
-        "b64" => caps[1],
-        "b128" => caps[2],
-        _ => caps[3],
+        "b32" => Some(32),
+        "b64" => Some(64),
+        _ => Some(128),
     }
 }
 
-fn probe_text_cap(ty: &str) -> Option<usize> {
+pub fn probe_text_cap(ty: &str) -> Option<usize> {
     let mut k = 1usize;
     loop {
         // ones, not zeros: redundant zeros are the one thing a parser might legitimately drop
